@@ -485,6 +485,13 @@ class C02Executor(Executor):
             return out
         return super().b_int(st, args, kwargs, node)
 
+    def _minmax(self, st, args, kwargs, node, is_min):
+        items = args if len(args) > 1 else self.concrete_items(st, args[0])
+        if items is not None and any(isinstance(x, VUnk) for x in items):
+            st.assume(ABSTRACTED)
+            return self.havoc_call(st, "min/max of unknown", [], node)
+        return super()._minmax(st, args, kwargs, node, is_min)
+
     def b_set(self, st, args, kwargs, node):
         if not args:
             return [(st, VExt("StrSet", EMPTYSET))]
@@ -520,7 +527,7 @@ class C02Executor(Executor):
             for side in (a, b):
                 self.list_method(st, new, "extend", [side], {}, node)
             return [(st, new)]
-        if op == "Add" and inplace and slist_of(st, a) is not None:
+        if op == "Add" and inplace and isinstance(a, VRef) and isinstance(b, VRef) and (slist_of(st, a) is not None or slist_of(st, b) is not None):
             for (s2, _r) in self.list_method(st, a, "extend", [b], {}, node):
                 return [(s2, None)]
         return super().binop(st, op, a, b, node, inplace)
@@ -777,7 +784,11 @@ class C02Executor(Executor):
             # the case-split postcondition (one obligation id per case) is assumed at call sites in its equivalent unsplit form
             import dataclasses
             c = dataclasses.replace(c, ensures=compact)
-        res = super().apply_contract(st, c, args, kwargs, node)
+        self.in_apply = getattr(self, "in_apply", 0) + 1
+        try:
+            res = super().apply_contract(st, c, args, kwargs, node)
+        finally:
+            self.in_apply -= 1
         if not res and not c.raises and not c.may_raise_any:
             raise Unsupported(f"{self.loc(node)} contract of {c.target} leaves no outcome (infeasible post-state)")
         return res
